@@ -390,9 +390,17 @@ fn calculate_length(bufs: &mut CurveBuffers, expected_len: Option<f64>, optimize
         let prev_idx = end_idx - 1;
 
         // * The direction of the segment to shorten or lengthen
-        let dir = (path[end_idx] - path[prev_idx]).normalize();
+        let segment = path[end_idx] - path[prev_idx];
 
-        path[end_idx] = path[prev_idx] + dir * (expected_len - cumulative_len[prev_idx]) as f32;
+        // A segment without extent has no direction; its end stays where it
+        // is instead of becoming NaN
+        if segment.length() > 0.0 {
+            let dir = segment.normalize();
+
+            path[end_idx] =
+                path[prev_idx] + dir * (expected_len - cumulative_len[prev_idx]) as f32;
+        }
+
         cumulative_len.push(expected_len);
     }
 }
